@@ -55,6 +55,18 @@ def elemKids (n : XNode) : List XNode := n.kids.filter isElem
 
 end XNode
 
+mutual
+/-- what the reader's traversal can see of a tree: tags, no-namespace attributes in order, children
+    (non-element nodes as `_`); in-scope namespaces and text are left out -/
+partial def XNode.shape : XNode → String
+  | .elem t attrs _ _ kids =>
+    t ++ "[" ++ ",".intercalate ((attrs.filter (·.ns.isNone)).map (fun a => a.name ++ "=" ++ a.value)) ++ "](" ++ XNode.shapes kids ++ ")"
+  | .other => "_"
+partial def XNode.shapes : List XNode → String
+  | [] => ""
+  | k :: ks => k.shape ++ ";" ++ XNode.shapes ks
+end
+
 /-- one input file: its top-level nodes (children of roxmltree's root), or a parse failure; plus the
     `reqwest::Url` oracle table for the `location`/`soapAction` values occurring in it -/
 structure XFile where
